@@ -73,7 +73,8 @@ def run_variant(prop, name, patch, baseline_rc):
 def main():
     prop = sys.argv[1]
     t0 = time.time()
-    r = subprocess.run([BIN, "-repo", REPO, "-prop", prop, "-tier", "thorough"], env=ENV, capture_output=True, text=True)
+    # evidence goes next to this script (a background sweep from a snapshot must not rewrite /verif/evidence)
+    r = subprocess.run([BIN, "-repo", REPO, "-prop", prop, "-tier", "thorough", "-out", os.path.join(HERE, "evidence")], env=ENV, capture_output=True, text=True)
     sys.stdout.write(r.stdout)
     sys.stderr.write(r.stderr)
     rc = r.returncode
